@@ -15,7 +15,8 @@
      per-stop replay in general (partial, see notes/C03.md);
    - the tag clause is FALSE of the faithful model of get_job_tag (finding C03-F1): strongest true statement
      C03_tag_is_used_place_partial, witness C03_tag_is_used_place_refuted. *)
-From VRP Require Import Base.Tac Model.Core Spec.Feasible Spec.Valid Model.Writer Proofs.ValidP Proofs.WriterP.
+From VRP Require Import Base.Tac Model.Core Spec.Feasible Spec.Valid Model.Writer Proofs.ValidP Proofs.WriterP
+                        Spec.ValidTD Proofs.ValidTDP.
 
 (* the schedule the Core model of update_schedules leaves in a route is a consistent one *)
 Theorem C03_update_schedules_consistent :
@@ -122,6 +123,45 @@ Proof. exact tag_is_used_place_partial. Qed.
 Theorem C03_tag_is_used_place_refuted :
   exists tk p w, In p (tk_places tk) /\ In w (pl_tws p) /\ fst w <= snd w /\ job_tag tk (pl_loc p) w <> pl_tag p.
 Proof. exact tag_is_used_place_refuted. Qed.
+
+(* breaks: the replayed statistic splits the service time of the visited activities into `serving` and `break` (the durations
+   of the break activities); without break activities break = 0, the case Model/Writer.v covers *)
+Theorem C03_replay_break_split : forall P vt acts,
+  st_serve (replay_stat P vt acts) + st_break (replay_stat P vt acts) = replay_serving acts.
+Proof. exact replay_stat_break_split. Qed.
+
+Theorem C03_replay_no_break : forall acts,
+  forallb (fun a => negb (is_break_act a)) (tl acts) = true -> replay_break acts = 0.
+Proof. exact replay_break_none. Qed.
+
+(* a document whose tour takes a break (reported in the `break` part, 5 s) is accepted by the whole checker *)
+Theorem C03_nonvacuous_break : valid_b ex_Pb ex_Sb = [] /\ st_break (sl_stat ex_Sb) = 5.
+Proof. exact ex_break_stat. Qed.
+
+(* general routing data (several profiles, profile scale, time-dependent matrices; Spec/ValidTD.v over the provider model of
+   C16): every leg is evaluated at its departure time.  With routing functions that ignore the departure the departure-dependent
+   replay IS the replay above - schedule, cumulative distance, and the whole statistic - so on the classic fragment nothing changed *)
+Theorem C03_td_replay_conservative : forall (dur : Z -> Z -> Z) (t : list act), replay_td (cst dur) t = replay dur t.
+Proof. exact replay_td_const. Qed.
+
+Theorem C03_td_cumdist_conservative : forall (dur dist : Z -> Z -> Z) (t : list act),
+  replay_cumdist_td (cst dur) (cst dist) t = replay_cumdist dist t.
+Proof. exact replay_cumdist_td_const. Qed.
+
+Theorem C03_td_statistic_conservative : forall P vt acts,
+  replay_stat_td (cst (pdur P)) (cst (pdist P)) vt acts = replay_stat P vt acts.
+Proof. exact replay_stat_td_const. Qed.
+
+Theorem C03_no_general_routing_is_replay_viol : forall P S, replay_viol_x None P S = replay_viol P S.
+Proof. exact replay_viol_x_none. Qed.
+
+(* non-vacuity: two matrices for the one profile, stamped 0 and 100 (distances 10 apart, then 15; durations 10, then 30: one
+   second per 5 seconds of later departure); the first leg departs at 0 (duration 10, distance 10), the second at 115, after the
+   second timestamp (duration 30, distance 15): accepted; the same document with the second leg taken from the FIRST matrix
+   (what seeded mutant C03-2 writes) is rejected *)
+Theorem C03_td_examples :
+  valid_td ex_R ex_Ptd ex_S_td = [] /\ replay_viol_td ex_R ex_Ptd ex_S_td_first = [RDistance 0 2; RStatDistance 0; RStatCost 0].
+Proof. exact ex_td. Qed.
 
 (* ---- non-vacuity *)
 (* the whole checker accepts a concrete document ... *)
